@@ -149,6 +149,32 @@ pub fn installed_elfs(limit: usize, r: &mut Rng) -> Vec<String> {
     v
 }
 
+fn wellformed_case(seed: u64, i: u64) -> String {
+        let mut r = Rng::for_case(seed, 3014, i);
+    let spec = crate::elfgen::gen_spec(&mut r);
+    let built = crate::elfgen::build(&spec);
+    let (b, s) = run_slice(&built.bytes);
+    let rb = built.build_id.as_ref().map(|v| if v.is_empty() { "empty".to_string() } else { hex(v) }).unwrap_or("none".into());
+    // two DT_SONAME entries are not something a well-formed file has: no reference answer then
+    let rs = if spec.soname_twice { "-".to_string() } else { built.soname.as_ref().map(|v| hex(v)).unwrap_or("none".into()) };
+    format!(
+        "C14 w{}-{} kind=slice data={} buildid={} soname={} ref_buildid={} ref_soname={} spec=bias{:x}.last{}.link{}.dp{}.ds{}.np{}.ns{}.tw{} wf={}{}{}{}{}",
+        seed, i, hex(&built.bytes), b, s, rb, rs,
+        spec.bias, spec.last_name, spec.dyn_link as u8, spec.dyn_phdr as u8, spec.dyn_section as u8, spec.note_phdr as u8, spec.note_section as u8, spec.soname_twice as u8,
+        if spec.is64 { "64" } else { "32" }, if spec.be { "be" } else { "le" },
+        if spec.has_phdrs { "+ph" } else { "" }, if spec.has_sections { "+sh" } else { "" }, if spec.bias != 0 { "+bias" } else { "" }
+    )
+}
+
+/// re-run one case of the well-formed stream by id (`w<seed>-<index>`)
+pub fn one(core: &str, seed: u64, index: u64) -> Option<String> {
+    if core.starts_with('w') {
+        Some(wellformed_case(seed, index))
+    } else {
+        None
+    }
+}
+
 pub fn generate(seed: u64, tier: &str, out: &mut dyn std::io::Write) {
     let (nrand, ncorr, nfiles) = if tier == "thorough" { (20000, 60000, 3000) } else { (1500, 6000, 60) };
     let (b, s) = run_slice(TINY_ELF);
@@ -170,6 +196,11 @@ pub fn generate(seed: u64, tier: &str, out: &mut dyn std::io::Write) {
         let d = corrupted(&mut r);
         let (b, s) = run_slice(&d);
         writeln!(out, "C14 c{}-{} kind=slice data={} buildid={} soname={}", seed, i, hex(&d), b, s).unwrap();
+    }
+    // well-formed images built from a specification: the right answers are known by construction
+    let nwf = if tier == "thorough" { 30000 } else { 3000 };
+    for i in 0..nwf {
+        writeln!(out, "{}", wellformed_case(seed, i)).unwrap();
     }
     let mut r = Rng::for_case(seed, 2014, 0);
     for (i, p) in installed_elfs(nfiles, &mut r).iter().enumerate() {
